@@ -333,15 +333,18 @@ Section Sim.
     R_log : log c = g_out g ++ [EBegin];
     R_after : after_context_left c = g_after g;
     R_sunk : has_sunk c = g_sunk g;
-    R_matched : has_matched c = g_matched g;
     R_laid : laid (rev (g_pend g)) (last_line_visited c);
     R_llv : last_line_visited c + plen (rev (g_pend g)) = g_off g;
     R_llc : last_line_counted c <= last_line_visited c;
     R_ln : LN c;
     R_lnum : g_lnum g = 1 + count_lt ltb (firstn (g_off g) s);
+    R_after_pend : 1 <= g_after g -> g_pend g = [];
+    R_after_le : g_after g <= c_after cfg;
   }.
-  (* R0 does not mention the scan position: the fast path advances it at another moment *)
-  Definition R (c : core) (g : gstate) : Prop := pos c = g_off g /\ R0 c g.
+  (* R0 mentions neither the scan position nor has_matched: the fast path updates them at other
+     moments than the slow path *)
+  Definition R (c : core) (g : gstate) : Prop :=
+    pos c = g_off g /\ has_matched c = g_matched g /\ R0 c g.
 
   Definition Rfin (c : core) (g : gstate) : Prop :=
     pos c = g_off g /\ log c = g_out g ++ [EBegin] /\ bin_off c = None.
@@ -386,6 +389,8 @@ Section Sim.
 
   Lemma R0_set_pos c g q : R0 c g -> R0 (set_pos c q) g.
   Proof. intros []. constructor; assumption. Qed.
+  Lemma R0_set_has_matched c g : R0 c g -> R0 (set_has_matched c) g.
+  Proof. intros []. constructor; assumption. Qed.
 
   Lemma post_matched_set_pos c a b q :
     post_matched cfg (set_pos c q) s a b = set_pos (post_matched cfg c s a b) q.
@@ -404,11 +409,11 @@ Section Sim.
     exists c2, before_context_by_line cfg K true (set_has_matched c) s p = OK true c2 /\
       bin_off c2 = None /\
       let c3 := post_matched cfg c2 s p (p + length l) in
-      pos c3 = pos c /\ log c3 = g_out g' ++ [EBegin] /\ bin_off c3 = None /\
+      pos c3 = pos c /\ log c3 = g_out g' ++ [EBegin] /\ bin_off c3 = None /\ has_matched c3 = true /\
       (terminated ltb l -> R0 c3 g').
   Proof.
     intros HR Hoff Hns Hnl g'.
-    destruct HR as [Rabs Rbin Rlog Rafter Rsunk Rmatched Rlaid Rllv Rllc Rln Rlnum].
+    destruct HR as [Rabs Rbin Rlog Rafter Rsunk Rlaid Rllv Rllc Rln Rlnum Rap Rale].
     destruct Hnl as (Hsub & Hb & Hshape).
     unfold g', g_step_s. rewrite Hns.
     assert (Hlnum' : terminated ltb l -> S (g_lnum g) = 1 + count_lt ltb (firstn (g_off g + length l) s)).
@@ -488,14 +493,98 @@ Section Sim.
       split; [rewrite F1; exact H2pos|].
       split; [rewrite Hlog; now rewrite app_assoc|].
       split; [exact F3|].
+      split; [congruence|].
       intro Ht.
       constructor; cbn [g_off g_out g_after g_sunk g_matched g_pend g_lnum rev]; try assumption.
       + rewrite Hlog. now rewrite app_assoc.
-      + congruence.
       + exact I.
       + rewrite F8. unfold plen. cbn. rewrite Hoff. lia.
       + rewrite F8. lia.
       + exact (Hlnum' Ht).
+      + reflexivity.
+      + lia.
+  Qed.
+
+
+  (* ---- one non-matching line: delivered as after-context, as passthru context, or left pending ---- *)
+  Definition g_after_step (g : gstate) (l : bytes) (stop : bool) : gstate :=
+    {| g_lnum := S (g_lnum g); g_off := g_off g + length l; g_pend := []; g_after := g_after g - 1; g_sunk := true;
+       g_matched := g_matched g; g_stopped := stop;
+       g_out := EContext CAfter (g_off g) (lnum_of cfg (g_lnum g)) l :: g_out g |}.
+  Definition g_other_step (g : gstate) (l : bytes) (stop : bool) : gstate :=
+    {| g_lnum := S (g_lnum g); g_off := g_off g + length l; g_pend := []; g_after := 0; g_sunk := true;
+       g_matched := g_matched g; g_stopped := stop;
+       g_out := EContext COther (g_off g) (lnum_of cfg (g_lnum g)) l :: g_out g |}.
+  Definition g_pend_step (g : gstate) (l : bytes) (stop : bool) : gstate :=
+    {| g_lnum := S (g_lnum g); g_off := g_off g + length l;
+       g_pend := {| p_lnum := g_lnum g; p_off := g_off g; p_bytes := l |} :: g_pend g;
+       g_after := 0; g_sunk := g_sunk g; g_matched := g_matched g; g_stopped := stop; g_out := g_out g |}.
+
+  Lemma g_step_nonmatch g l : g_stopped g = false ->
+    g_step_s cfg g l false =
+    let stop := c_stop_on_nonmatch cfg && g_matched g in
+    if Nat.leb 1 (g_after g) then g_after_step g l stop
+    else if c_passthru cfg then g_other_step g l stop else g_pend_step g l stop.
+  Proof. intro H. unfold g_step_s. rewrite H. cbn [negb andb]. rewrite andb_true_r. reflexivity. Qed.
+
+  Lemma lnum_next g p l : g_lnum g = 1 + count_lt ltb (firstn (g_off g) s) -> g_off g = p ->
+    sub s p (p + length l) = l -> p + length l <= length s -> terminated ltb l ->
+    S (g_lnum g) = 1 + count_lt ltb (firstn (g_off g + length l) s).
+  Proof. intros Hl Hoff Hsub Hb Ht. rewrite Hoff. rewrite (count_lt_next p l Hsub Hb Ht). rewrite Hl, Hoff. lia. Qed.
+
+  Lemma ctx_step (k : ctx_kind) c g p l stop :
+    R0 c g -> g_off g = p -> next_line p l -> (k = CAfter -> 1 <= g_after g) -> (k = COther -> g_after g = 0) ->
+    k <> CBefore ->
+    let g' := match k with CAfter => g_after_step g l stop | _ => g_other_step g l stop end in
+    let c' := post_ctx cfg k c s p (p + length l) in
+    pos c' = pos c /\ has_matched c' = has_matched c /\ log c' = g_out g' ++ [EBegin] /\ bin_off c' = None /\
+    (terminated ltb l -> R0 c' g').
+  Proof.
+    intros HR Hoff Hnl Hka Hko Hkb g' c'.
+    destruct HR as [Rabs Rbin Rlog Rafter Rsunk Rlaid Rllv Rllc Rln Rlnum Rap Rale].
+    destruct Hnl as (Hsub & Hb & Hshape).
+    assert (Hllcp : last_line_counted c <= p) by lia.
+    destruct (post_ctx_fields k c p (p + length l) Rln Hllcp Rabs Rbin)
+      as (F1 & F2 & F3 & F4 & F5 & F6 & F7 & F8 & F9 & F10).
+    fold c' in F1, F2, F3, F4, F5, F6, F7, F8, F9, F10.
+    assert (Hlog : log c' = g_out g' ++ [EBegin]).
+    { unfold g'. destruct k; try congruence; cbn [g_after_step g_other_step g_out];
+        rewrite F4, Hsub, Rlog, Rlnum, Hoff; reflexivity. }
+    split; [exact F1|]. split; [exact F7|]. split; [exact Hlog|]. split; [exact F3|].
+    intro Ht.
+    assert (Hln' := lnum_next g p l Rlnum Hoff Hsub Hb Ht).
+    unfold g'. destruct k; [congruence| |].
+    - constructor; cbn [g_after_step g_off g_out g_after g_sunk g_matched g_pend g_lnum rev]; try assumption.
+      + rewrite F5. now rewrite Rafter.
+      + exact I.
+      + rewrite F8. unfold plen. cbn. rewrite Hoff. lia.
+      + rewrite F8. lia.
+      + reflexivity.
+      + lia.
+    - constructor; cbn [g_other_step g_off g_out g_after g_sunk g_matched g_pend g_lnum rev]; try assumption.
+      + rewrite F5. rewrite Rafter. apply Hko. reflexivity.
+      + exact I.
+      + rewrite F8. unfold plen. cbn. rewrite Hoff. lia.
+      + rewrite F8. lia.
+      + reflexivity.
+      + lia.
+  Qed.
+
+  Lemma pend_step c g p l stop :
+    R0 c g -> g_off g = p -> next_line p l -> g_after g = 0 -> terminated ltb l ->
+    R0 c (g_pend_step g l stop).
+  Proof.
+    intros HR Hoff Hnl Ha Ht.
+    destruct HR as [Rabs Rbin Rlog Rafter Rsunk Rlaid Rllv Rllc Rln Rlnum Rap Rale].
+    destruct Hnl as (Hsub & Hb & Hshape).
+    assert (Hln' := lnum_next g p l Rlnum Hoff Hsub Hb Ht).
+    constructor; cbn [g_pend_step g_off g_out g_after g_sunk g_matched g_pend g_lnum rev]; try assumption.
+    - now rewrite Rafter.
+    - apply laid_app. split; [exact Rlaid|]. cbn [laid p_off p_bytes p_lnum].
+      rewrite Rllv, Hoff. repeat split; auto. rewrite Rlnum, Hoff. reflexivity.
+    - rewrite plen_app. unfold plen at 2. cbn [map concat p_bytes]. rewrite app_nil_r. lia.
+    - lia.
+    - lia.
   Qed.
 
   Notation slow := (slow_loop cfg M K true).
@@ -507,99 +596,122 @@ Section Sim.
       slow (S fuel) c s p = if g_stopped g' then OK false c' else slow fuel c' s (p + length l).
   Proof.
     intros HR Hns Hoff Hnl g'.
-    destruct HR as [Rpos [Rabs Rbin Rlog Rafter Rsunk Rmatched Rlaid Rllv Rllc Rln Rlnum]].
-    destruct Hnl as (Hsub & Hb & Hshape).
-    assert (Hnl : next_line p l) by (repeat split; assumption).
+    destruct HR as (Rpos & Rmatched & HR0).
+    pose proof Hnl as (Hsub & Hb & Hshape).
     cbn [slow_loop]. unfold ltb_. rewrite (line_step_next p l Hnl). rewrite Hsub.
-    unfold g', g_step, g_step_s. rewrite Hns.
+    unfold g', g_step.
     set (matched := m_is_match M (without_terminator (c_lt cfg) l)).
     set (success := negb (Bool.eqb matched (c_invert cfg))).
     set (c0 := set_pos c (p + length l)).
-    assert (Hlnum' : terminated ltb l -> S (g_lnum g) = 1 + count_lt ltb (firstn (g_off g + length l) s)).
-    { intro Ht. rewrite Hoff. rewrite (count_lt_next p l Hsub Hb Ht). rewrite Rlnum, Hoff. lia. }
+    assert (HR00 : R0 c0 g) by (apply R0_set_pos; exact HR0).
     destruct success eqn:Es.
     - (* the line is a match *)
-      destruct (matched_step c0 g p l) as (c2 & Hrun & H2bin & Hc3);
-        [apply R0_set_pos; constructor; assumption|exact Hoff|exact Hns|exact Hnl|].
-      cbn zeta in Hc3. destruct Hc3 as (Hp3 & Hlog3 & Hbin3 & HR3).
+      destruct (matched_step c0 g p l HR00 Hoff Hns Hnl) as (c2 & Hrun & H2bin & Hc3).
+      cbn zeta in Hc3. destruct Hc3 as (Hp3 & Hlog3 & Hbin3 & Hm3 & HR3).
       rewrite Hrun. cbn [andthen].
       rewrite (sink_matched_K cfg Hbin) by exact H2bin. cbn [andthen].
       rewrite andb_false_r. cbn [andb].
       exists (post_matched cfg c2 s p (p + length l)).
-      assert (Hgs : g_step_s cfg g l true =
-                    g_step_s cfg g l true) by reflexivity.
-      unfold g_step_s in HR3, Hlog3 |- *. rewrite Hns in HR3, Hlog3.
-      cbn [g_stopped].
-      split.
-      { unfold Rfin. cbn [g_off g_out] in *. split; [rewrite Hp3; cbn [c0 pos set_pos]; now rewrite Hoff|].
-        split; [exact Hlog3|exact Hbin3]. }
+      assert (Hst : g_stopped (g_step_s cfg g l true) = false) by (unfold g_step_s; rewrite Hns; reflexivity).
+      assert (Hgo : g_off (g_step_s cfg g l true) = p + length l) by (unfold g_step_s; rewrite Hns, Hoff; reflexivity).
+      assert (Hgm : g_matched (g_step_s cfg g l true) = true) by (unfold g_step_s; rewrite Hns; reflexivity).
+      rewrite Hst.
+      split. { unfold Rfin. rewrite Hgo, Hp3. split; [reflexivity|]. split; assumption. }
       split; [|reflexivity].
-      intro Ht. split; [cbn [g_off]; rewrite Hp3; cbn [c0 pos set_pos]; now rewrite Hoff|].
-      exact (HR3 Ht).
+      intro Ht. split; [rewrite Hgo, Hp3; reflexivity|]. split; [rewrite Hgm; exact Hm3|]. exact (HR3 Ht).
     - (* not a match *)
-      assert (Hllcp : last_line_counted c0 <= p).
-      { cbn [c0 last_line_counted set_pos]. pose proof Rllv. lia. }
-      assert (Hln0 : LN c0) by exact Rln.
+      rewrite (g_step_nonmatch g l Hns). cbn zeta.
+      pose proof HR00 as [Rabs Rbin Rlog Rafter Rsunk Rlaid Rllv Rllc Rln Rlnum Rap Rale].
       cbn [negb andb]. rewrite andb_true_r.
-      change (after_context_left c0) with (after_context_left c). rewrite Rafter.
+      change (after_context_left c0) with (after_context_left c) in *. rewrite Rafter.
       destruct (Nat.leb 1 (g_after g)) eqn:Eaf.
       + (* after-context *)
         rewrite (sink_after_K cfg Hbin) by exact Rbin. cbn [andthen].
-        destruct (post_ctx_fields CAfter c0 p (p + length l) Hln0 Hllcp Rabs Rbin)
-          as (F1 & F2 & F3 & F4 & F5 & F6 & F7 & F8 & F9 & F10).
+        destruct (ctx_step CAfter c0 g p l (c_stop_on_nonmatch cfg && g_matched g) HR00 Hoff Hnl)
+          as (Fp & Fm & Flog & Fbin & FR);
+          [intros _; now apply Nat.leb_le|discriminate|discriminate|].
+        cbn zeta in Fp, Fm, Flog, Fbin, FR.
         exists (post_ctx cfg CAfter c0 s p (p + length l)).
-        cbn [g_stopped]. rewrite F7. change (has_matched c0) with (has_matched c). rewrite Rmatched.
-        assert (Hlog : log (post_ctx cfg CAfter c0 s p (p + length l)) =
-                       (EContext CAfter (g_off g) (lnum_of cfg (g_lnum g)) l :: g_out g) ++ [EBegin]).
-        { rewrite F4, Hsub. change (log c0) with (log c). rewrite Rlog, Rlnum, Hoff. reflexivity. }
-        split.
-        { unfold Rfin. cbn [g_off g_out]. split; [rewrite F1; cbn [c0 pos set_pos]; now rewrite Hoff|].
-          split; [exact Hlog|exact F3]. }
+        cbn [g_after_step g_stopped]. rewrite Fm. change (has_matched c0) with (has_matched c). rewrite Rmatched.
+        split. { unfold Rfin. cbn [g_after_step g_off]. rewrite Fp. cbn [c0 pos set_pos]. rewrite Hoff. auto. }
         split; [|reflexivity].
-        intro Ht. split; [cbn [g_off]; rewrite F1; cbn [c0 pos set_pos]; now rewrite Hoff|].
-        constructor; cbn [g_off g_out g_after g_sunk g_matched g_pend g_lnum rev]; try assumption.
-        * rewrite F5. change (after_context_left c0) with (after_context_left c). now rewrite Rafter.
-        * rewrite F7. exact Rmatched.
-        * exact I.
-        * rewrite F8. unfold plen. cbn. rewrite Hoff. lia.
-        * rewrite F8. lia.
-        * exact (Hlnum' Ht).
+        intro Ht. split; [cbn [g_after_step g_off]; rewrite Fp; cbn [c0 pos set_pos]; now rewrite Hoff|].
+        split; [cbn [g_after_step g_matched]; rewrite Fm; exact Rmatched|]. exact (FR Ht).
       + destruct (c_passthru cfg) eqn:Ep.
         * (* passthru *)
           rewrite (sink_other_K cfg Hbin) by exact Rbin. cbn [andthen].
-          destruct (post_ctx_fields COther c0 p (p + length l) Hln0 Hllcp Rabs Rbin)
-            as (F1 & F2 & F3 & F4 & F5 & F6 & F7 & F8 & F9 & F10).
+          destruct (ctx_step COther c0 g p l (c_stop_on_nonmatch cfg && g_matched g) HR00 Hoff Hnl)
+            as (Fp & Fm & Flog & Fbin & FR);
+            [discriminate|intros _; apply Nat.leb_gt in Eaf; lia|discriminate|].
+          cbn zeta in Fp, Fm, Flog, Fbin, FR.
           exists (post_ctx cfg COther c0 s p (p + length l)).
-          cbn [g_stopped]. rewrite F7. change (has_matched c0) with (has_matched c). rewrite Rmatched.
-          assert (Hlog : log (post_ctx cfg COther c0 s p (p + length l)) =
-                         (EContext COther (g_off g) (lnum_of cfg (g_lnum g)) l :: g_out g) ++ [EBegin]).
-          { rewrite F4, Hsub. change (log c0) with (log c). rewrite Rlog, Rlnum, Hoff. reflexivity. }
-          split.
-        { unfold Rfin. cbn [g_off g_out]. split; [rewrite F1; cbn [c0 pos set_pos]; now rewrite Hoff|].
-          split; [exact Hlog|exact F3]. }
+          cbn [g_other_step g_stopped]. rewrite Fm. change (has_matched c0) with (has_matched c). rewrite Rmatched.
+          split. { unfold Rfin. cbn [g_other_step g_off]. rewrite Fp. cbn [c0 pos set_pos]. rewrite Hoff. auto. }
           split; [|reflexivity].
-          intro Ht. split; [cbn [g_off]; rewrite F1; cbn [c0 pos set_pos]; now rewrite Hoff|].
-          constructor; cbn [g_off g_out g_after g_sunk g_matched g_pend g_lnum rev]; try assumption.
-          -- rewrite F5. change (after_context_left c0) with (after_context_left c). rewrite Rafter.
-             destruct (Nat.leb_spec 1 (g_after g)); [discriminate|lia].
-          -- rewrite F7. exact Rmatched.
-          -- exact I.
-          -- rewrite F8. unfold plen. cbn. rewrite Hoff. lia.
-          -- rewrite F8. lia.
-          -- exact (Hlnum' Ht).
+          intro Ht. split; [cbn [g_other_step g_off]; rewrite Fp; cbn [c0 pos set_pos]; now rewrite Hoff|].
+          split; [cbn [g_other_step g_matched]; rewrite Fm; exact Rmatched|]. exact (FR Ht).
         * (* the line stays pending *)
-          exists c0. cbn [g_stopped]. change (has_matched c0) with (has_matched c). rewrite Rmatched.
-          split. { unfold Rfin. cbn [g_off g_out c0 pos log bin_off set_pos]. rewrite Hoff. auto. }
+          exists c0. cbn [g_pend_step g_stopped]. change (has_matched c0) with (has_matched c). rewrite Rmatched.
+          split. { unfold Rfin. cbn [g_pend_step g_off g_out c0 pos log bin_off set_pos]. rewrite Hoff. auto. }
           split; [|reflexivity].
-          intro Ht. split; [cbn [g_off c0 pos set_pos]; now rewrite Hoff|].
-          constructor; cbn [g_off g_out g_after g_sunk g_matched g_pend g_lnum rev
-                            c0 pos abs_off bin_off log after_context_left has_sunk has_matched
-                            last_line_visited last_line_counted set_pos]; try assumption.
-          -- rewrite Rafter. destruct (Nat.leb_spec 1 (g_after g)); [discriminate|lia].
-          -- apply laid_app. split; [exact Rlaid|]. cbn [laid p_off p_bytes p_lnum].
-             rewrite Rllv, Hoff. repeat split; auto. rewrite Rlnum, Hoff. reflexivity.
-          -- rewrite plen_app. unfold plen at 2. cbn [map concat p_bytes]. rewrite app_nil_r. lia.
-          -- exact (Hlnum' Ht).
+          intro Ht. split; [cbn [g_pend_step g_off c0 pos set_pos]; now rewrite Hoff|].
+          split; [exact Rmatched|].
+          apply (pend_step c0 g p l _ HR00 Hoff Hnl); [apply Nat.leb_gt in Eaf; lia|exact Ht].
+  Qed.
+
+  (* ------------------------------------------------------------------ runs of non-matching lines
+     (how the fast path and the multi-line searcher absorb them: after_context_by_line emits the
+     after-context that is still owed, the other lines stay pending) *)
+  Fixpoint lines_seq (ls : list bytes) (p : nat) : Prop :=
+    match ls with
+    | [] => True
+    | l :: r => next_line p l /\ (r <> [] -> terminated ltb l) /\ lines_seq r (p + length l)
+    end.
+
+  Definition nonsuccess (l : bytes) : Prop :=
+    negb (Bool.eqb (m_is_match M (without_terminator (c_lt cfg) l)) (c_invert cfg)) = false.
+
+  Notation gstep := (g_step cfg (m_is_match M)).
+
+  Record run_post (c c' : core) (g gk : gstate) (q : nat) (pre : list bytes) : Prop := {
+    rp_pos : pos c' = pos c;
+    rp_matched : has_matched c' = has_matched c;
+    rp_log : log c' = g_out gk ++ [EBegin];
+    rp_bin : bin_off c' = None;
+    rp_off : g_off gk = q;
+    rp_ns : g_stopped gk = false;
+    rp_gm : g_matched gk = g_matched g;
+    rp_R0 : Forall (terminated ltb) pre -> R0 c' gk;
+  }.
+
+  Lemma pend_run : forall pre c g p,
+    R0 c g -> g_off g = p -> g_stopped g = false -> c_passthru cfg = false ->
+    c_stop_on_nonmatch cfg && g_matched g = false -> g_after g = 0 ->
+    lines_seq pre p -> Forall nonsuccess pre ->
+    run_post c c g (fold_left gstep pre g) (p + length (concat pre)) pre.
+  Proof.
+    induction pre as [|l r IH]; intros c g p HR Hoff Hns Hpt Hstop Ha Hseq Hnon.
+    - cbn [fold_left concat length]. rewrite Nat.add_0_r.
+      pose proof HR as []. constructor; auto.
+    - destruct Hseq as (Hnl & Hterm & Hrest). inversion Hnon as [|? ? Hl Hr]. 
+      cbn [fold_left concat]. rewrite app_length, Nat.add_assoc.
+      assert (Hstep : gstep g l = g_pend_step g l false).
+      { unfold g_step. unfold nonsuccess in Hl. rewrite Hl. rewrite (g_step_nonmatch g l Hns). cbn zeta.
+        rewrite Ha, Hpt, Hstop. reflexivity. }
+      rewrite Hstep.
+      destruct r as [|l2 r2].
+      + cbn [fold_left concat length]. rewrite Nat.add_0_r.
+        pose proof HR as [Rabs Rbin Rlog Rafter Rsunk Rlaid Rllv Rllc Rln Rlnum Rap Rale].
+        constructor; cbn [g_pend_step g_out g_off g_stopped g_matched]; auto; try lia.
+        intro Hall. inversion Hall as [|? ? Ht _].
+        apply (pend_step c g p l false); auto.
+      + clear Hnon. assert (Ht : terminated ltb l) by (apply Hterm; discriminate).
+        pose proof (pend_step c g p l false HR Hoff Hnl Ha Ht) as HR1.
+        specialize (IH c (g_pend_step g l false) (p + length l) HR1).
+        destruct IH as [I1 I2 I3 I4 I5 I6 I7 I8]; auto.
+        { cbn. lia. }
+        constructor; auto.
+        intro Hall. inversion Hall. auto.
   Qed.
 
   (* ------------------------------------------------------------------ the whole loop *)
@@ -656,7 +768,7 @@ Section Sim.
     - cbn [lines_at] in Hat. destruct fuel as [|f]; [cbn in Hf; lia|].
       cbn [slow_loop]. unfold ltb_. rewrite line_step_end by lia.
       exists true, c. split; [reflexivity|]. unfold gf. cbn [fold_left].
-      destruct HR as [Hp0 []]. unfold Rfin. repeat split; auto. lia.
+      destruct HR as (Hp0 & Hm0 & []). unfold Rfin. repeat split; auto. lia.
     - destruct fuel as [|f]; [cbn in Hf; lia|].
       destruct Hat as (Hnl & Hterm & Hrest).
       destruct (slow_step f c g p l HR Hns Hoff Hnl) as (c' & Hfin & HR' & Heq).
@@ -683,7 +795,7 @@ Section Sim.
   Lemma R_init :
     R (set_log (core_new cfg) [EBegin]) g_init.
   Proof.
-    split; [reflexivity|].
+    split; [reflexivity|]. split; [reflexivity|].
     constructor; cbn; try reflexivity; try exact I; try lia.
     unfold LN. cbn. destruct (c_line_number cfg); reflexivity.
   Qed.
